@@ -101,6 +101,21 @@ ARITH_REASONS = {
 }
 
 
+NARROW_REASONS = {
+    "BitReaderReversed::consume|narrow:u8": "hand argument: bits_consumed <= 64 (refill keeps it < 8 before a read) and n <= 64, sum <= 128 < 256",
+    "BitReaderReversed::get_bits|narrow:u8": "hand argument: bits_consumed <= 64 and n <= 64, sum <= 128 < 256",
+    "BitReaderReversed::get_bits_triple|narrow:u8": "hand argument: callers pass FSE bit counts (<= 9 each) or extra-bit counts (offset <= 31, literal / match length <= 16 each): sum <= 63",
+    "BitReaderReversed::peek_bits|narrow:u8": "hand argument: called with bits_consumed + n <= 64 (get_bits refills first; n <= 56)",
+    "BitReaderReversed::peek_bits_triple|narrow:u8": "hand argument: sum <= 56 checked by get_bits_triple and refill leaves bits_consumed < 8; n2 + n3 <= sum",
+    "BitReaderReversed::refill|narrow:u8": "hand argument: on that branch 0 < index < bits_consumed / 8 <= 31, so 8 * index <= 248 and < bits_consumed",
+    "FSETable::read_probabilities|narrow:u8": "arith: 5 + a 4-bit value <= 20",
+    "HuffmanTable::build_table_from_weights|narrow:u8": "arith: weights <= 11 (guard) and a weight w > 0 contributes 2^(w-1) to the sum, so max_bits >= w; left_over >= 1 so last_weight >= 1; max_bits <= 32",
+    "HuffmanTable::read_weights|narrow:u8": "guarded: header >= 128 on the direct arm (decided for all 128 headers by C13.layout.direct-extent)",
+    "SequencesHeader::parse_from_header|narrow:u8": "arith: a byte counter that starts at 0 and receives at most 1 + 2 + 1 or 4",
+    "fse_decoder::calc_baseline_and_numbits|narrow:u8": "arith: num_bits <= accuracy log <= 9",
+}
+
+
 def _short(p):
     return H.short(p)
 
@@ -141,8 +156,20 @@ def enumerate_all(ctx, known=None):
     return fns, g, p, l, a, u
 
 
+def narrow_sites(ctx, known=None):
+    crate = ctx.crate()
+    fns = _decode_fns(ctx)
+    new = set() if known is None else {f for f in fns if f not in known and "{closure" not in f}
+    inl = {f for f in new if (crate.hir.get(f) or {}).get("inlined_everywhere")}
+    own_hir = {f: o for f, o in INV.owners(crate, fns, new).items() if f not in inl}
+    nr = INV.reattribute(INV.narrow_arith(crate, fns), own_hir)
+    for x in nr:
+        x["fn"] = _short(x["fn"])
+    return nr
+
+
 def freeze(ctx, cfgs):
-    out = {"guards": {}, "panics": {}, "loops": {}, "arith": {}, "unsafe": set(), "functions": set()}
+    out = {"guards": {}, "panics": {}, "loops": {}, "arith": {}, "narrow": {}, "unsafe": set(), "functions": set()}
     for cfg in cfgs:
         ctx.cfg = cfg
         fns, g, p, l, a, u = enumerate_all(ctx)
@@ -157,7 +184,8 @@ def freeze(ctx, cfgs):
             out["guards"] = guards          # the guard baseline is the default configuration's
         out["unsafe"] |= set(u)
         for name, items, reasons in (("panics", p, PANIC_REASONS), ("loops", l, LOOP_REASONS),
-                                     ("arith", [x for x in a if x["kind"] == "shift"], ARITH_REASONS)):
+                                     ("arith", [x for x in a if x["kind"] == "shift"], ARITH_REASONS),
+                                     ("narrow", narrow_sites(ctx), NARROW_REASONS)):
             for k, n in INV.count_by(items, "fn", "kind").items():
                 r = reasons.get(k)
                 if r is None and name == "panics" and k.endswith("|debug_assert"):
@@ -242,6 +270,10 @@ def run(ctx):
 
     # (e) variable shifts
     INV.compare_counts(ctx, "C03.inventory.shifts", "variable shift amount(s)", [x for x in a if x["kind"] == "shift"], T["arith"], ("fn", "kind"))
+    # (d') 8- and 16-bit arithmetic: where a sum or product of small-looking quantities stops fitting its type
+    nr = narrow_sites(ctx, set(T.get("functions") or ()) or None)
+    INV.compare_counts(ctx, "C03.inventory.narrow-arith", "8/16-bit addition, subtraction, multiplication or shift site(s)", nr, T.get("narrow", {}), ("fn", "kind"))
+    ctx.floor("C03.inventory.narrow-arith", len(nr), 20, "narrow arithmetic sites on the decode path")
 
     # (f) dominance ties
     _dom_ties(ctx)
